@@ -162,7 +162,7 @@ CouponList<A>* CouponList<A>::newList(std::istream& is, const A& allocator) {
   sketch->couponCount_ = couponCount;
   sketch->putOutOfOrderFlag(oooFlag); // should always be false for LIST
 
-  if (!emptyFlag) {
+  if (!emptyFlag || !compact) { // the updatable image carries the whole array even when the list is empty
     // For stream processing, need to read entire number written to stream so read
     // pointer ends up set correctly.
     // If not compact, still need to read empty items even though in order.
